@@ -118,13 +118,19 @@ class RandomStub:
         self.ctx = ctx
 
     def _log(self, fn, **kw):
-        self.ctx.rlog.append(dict(fn=fn, **kw))
+        # "random": did the call have more than one possible outcome?
+        now = getattr(self.ctx, "real_choices", 0)
+        self.ctx.rlog.append(dict(fn=fn, random=now > self._mark or fn == "uniform", **kw))
+        self._mark = now
+
+    _mark = 0
 
     def seed(self, *a, **k):
         pass
 
     def sample(self, population, k=None, *, counts=None):
         ctx = self.ctx
+        self._mark = getattr(ctx, "real_choices", 0)
         pop = list(population)
         if k is None:
             raise TypeError("sample() missing k")
@@ -149,6 +155,7 @@ class RandomStub:
 
     def choices(self, population, weights=None, *, cum_weights=None, k=1):
         ctx = self.ctx
+        self._mark = getattr(ctx, "real_choices", 0)
         pop = list(population)
         if weights is None:
             weights = [1] * len(pop)
@@ -174,6 +181,7 @@ class RandomStub:
         seq = list(seq)
         if not seq:
             raise IndexError("Cannot choose from an empty sequence")
+        self._mark = getattr(self.ctx, "real_choices", 0)
         i = self.ctx.choose(len(seq))
         self.ctx.prob = core.mul(self.ctx.prob, RealFraction(1, len(seq)))
         self._log("choice", population=seq, outcome=seq[i])
@@ -220,6 +228,7 @@ class NpRandomStub:
         p = list(p)
         if len(p) != len(a):
             raise ValueError("'a' and 'p' must have same size")
+        mark = getattr(ctx, "real_choices", 0)
         ctx.rlog.append(dict(fn="np.choice", a=list(a), p=list(p), size=size, replace=replace))
         out = []
         rem = list(range(len(a)))
@@ -235,6 +244,7 @@ class NpRandomStub:
             if not replace:
                 rem.remove(i)
         ctx.rlog[-1]["outcome"] = list(out)
+        ctx.rlog[-1]["random"] = getattr(ctx, "real_choices", 0) > mark
         if size is None:
             return out[0]
         return NpList(out)
